@@ -165,13 +165,72 @@ theorem from_repr_const_iff (d : EnumDef) :
   unfold isConstFn EnumDef.enabled
   simp only [List.all_eq_true, List.mem_filter, Bool.not_eq_eq_eq_not, Bool.not_true, beq_iff_eq, and_imp]
 
-/-- the parameter type -/
-theorem repr_type (d : EnumDef) : reprType d = (match d.repr with | some t => t | none => .usize) := by
-  unfold reprType; cases d.repr <;> rfl
+/-! ### the parameter type: the `#[repr]` integer type wherever it is written, `usize` if none -/
+
+/-- rustc accepts at most one integer type among the repr hints of an enum (E0566 "conflicting representation hints") -/
+def ReprWF (d : EnumDef) : Prop := ∀ t t', ReprHint.int t ∈ d.reprHints → ReprHint.int t' ∈ d.reprHints → t = t'
+
+theorem intHint_mem : ∀ (hs : List ReprHint) (t : ReprTy), intHint hs = some t → ReprHint.int t ∈ hs
+  | [], _, h => by simp [intHint] at h
+  | .int t' :: hs, t, h => by simp only [intHint, Option.some.injEq] at h; subst h; exact List.mem_cons_self
+  | .c :: hs, t, h => List.mem_cons_of_mem _ (intHint_mem hs t (by simpa [intHint] using h))
+  | .align _ :: hs, t, h => List.mem_cons_of_mem _ (intHint_mem hs t (by simpa [intHint] using h))
+  | .packed :: hs, t, h => List.mem_cons_of_mem _ (intHint_mem hs t (by simpa [intHint] using h))
+  | .other :: hs, t, h => List.mem_cons_of_mem _ (intHint_mem hs t (by simpa [intHint] using h))
+
+theorem scanIntHint_eq : ∀ (hs : List ReprHint) (acc : ReprTy),
+    (∀ t t', ReprHint.int t ∈ hs → ReprHint.int t' ∈ hs → t = t') → scanIntHint hs acc = (intHint hs).getD acc
+  | [], _, _ => rfl
+  | .int t :: hs, acc, h => by
+    have ih := scanIntHint_eq hs t (fun a b ha hb => h a b (List.mem_cons_of_mem _ ha) (List.mem_cons_of_mem _ hb))
+    simp only [scanIntHint, intHint, Option.getD_some]
+    rw [ih]
+    cases hq : intHint hs with
+    | none => rfl
+    | some t' =>
+      have := h t' t (List.mem_cons_of_mem _ (intHint_mem hs t' hq)) List.mem_cons_self
+      simp [this]
+  | .c :: hs, acc, h => by
+    simpa [scanIntHint, intHint] using scanIntHint_eq hs acc (fun a b ha hb => h a b (List.mem_cons_of_mem _ ha) (List.mem_cons_of_mem _ hb))
+  | .align _ :: hs, acc, h => by
+    simpa [scanIntHint, intHint] using scanIntHint_eq hs acc (fun a b ha hb => h a b (List.mem_cons_of_mem _ ha) (List.mem_cons_of_mem _ hb))
+  | .packed :: hs, acc, h => by
+    simpa [scanIntHint, intHint] using scanIntHint_eq hs acc (fun a b ha hb => h a b (List.mem_cons_of_mem _ ha) (List.mem_cons_of_mem _ hb))
+  | .other :: hs, acc, h => by
+    simpa [scanIntHint, intHint] using scanIntHint_eq hs acc (fun a b ha hb => h a b (List.mem_cons_of_mem _ ha) (List.mem_cons_of_mem _ hb))
+
+/-- **the parameter type of `from_repr` is the enum's discriminant type**: the integer type named by ANY hint of ANY
+    `#[repr(..)]` attribute (`#[repr(C, u8)]`, `#[repr(i8)] #[repr(align(4))]`, ..), `usize` if there is none -/
+theorem repr_type (d : EnumDef) (h : ReprWF d) :
+    reprType d = (match d.repr with | some t => t | none => .usize) := by
+  unfold reprType enumRepr EnumDef.repr
+  by_cases he : d.reprAttrs.isEmpty = true
+  · have : d.reprAttrs = [] := by simpa using he
+    simp [EnumDef.reprHints, this, intHint]
+  · simp only [he, Bool.false_eq_true, ↓reduceIte]
+    have h' := scanIntHint_eq d.reprAttrs.flatten .usize h
+    rw [h']
+    simp only [EnumDef.reprHints]
+    cases intHint d.reprAttrs.flatten <;> rfl
+
+/-! ### F8 / F9 regression witnesses -/
+/-- `#[repr(C, u8)] enum E { A, B(u8) }` -/
+def f8Enum : EnumDef := { reprAttrs := [[.c, .int .u8]], variants := [{ ident := [65] }, { ident := [66], fields := .tuple 1 }] }
+/-- `#[repr(i8)] #[repr(align(4))] enum E { A = -3, B }` -/
+def f9Enum : EnumDef := { reprAttrs := [[.int .i8], [.align 4]], variants := [{ ident := [65], discr := some (-3) }, { ident := [66] }] }
+
+/-- pinned generator: `from_repr` takes `usize` although the discriminant type is `u8` / `i8` -/
+theorem pinned_repr_type_wrong :
+    reprTypePinned f8Enum = .usize ∧ f8Enum.repr = some .u8 ∧ reprTypePinned f9Enum = .usize ∧ f9Enum.repr = some .i8 := by decide
+
+/-- repaired generator -/
+example : reprType f8Enum = .u8 ∧ reprType f9Enum = .i8 := by decide
+example : ReprWF f8Enum ∧ ReprWF f9Enum := by
+  constructor <;> intro t t' h h' <;> simp [f8Enum, f9Enum, EnumDef.reprHints] at h h' <;> simp [h, h']
 
 /-! ### F2 regression witness: `#[repr(u8)] enum R { A, #[strum(disabled)] B, C }` -/
 def f2Enum : EnumDef :=
-  { repr := some .u8, variants := [{ ident := [65] }, { ident := [66], disabled := true }, { ident := [67] }] }
+  { reprAttrs := [[.int .u8]], variants := [{ ident := [65] }, { ident := [66], disabled := true }, { ident := [67] }] }
 
 /-- pinned generator: `from_repr(1) == Some(C)` although `C as u8 == 2` -/
 theorem pinned_from_repr_wrong : fromReprPinned f2Enum 1 = some ([67], []) ∧ rustcDiscr f2Enum = [0, 1, 2] := by decide
